@@ -52,6 +52,53 @@ impl Report {
         }
     }
 
+    /// a report that is only ever merged into another one (parallel cases)
+    pub fn detached() -> Self {
+        Report {
+            dir: PathBuf::new(),
+            ops: vec![],
+            outs: vec![],
+            case_start: 0,
+            case_name: String::new(),
+            evaluations: 0,
+            distinct: BTreeSet::new(),
+            samples: vec![],
+            dist: BTreeMap::new(),
+            failures: vec![],
+            extra: BTreeMap::new(),
+            max_samples: 3,
+        }
+    }
+
+    /// append everything `other` recorded (cases run elsewhere), keeping the first / shortest example per fingerprint
+    pub fn absorb(&mut self, other: Report) {
+        self.ops.extend(other.ops);
+        self.outs.extend(other.outs);
+        self.case_start = self.ops.len();
+        self.evaluations += other.evaluations;
+        self.distinct.extend(other.distinct);
+        for s in other.samples {
+            if self.samples.len() < self.max_samples {
+                self.samples.push(s);
+            }
+        }
+        for (k, v) in other.dist {
+            *self.dist.entry(k).or_insert(0) += v;
+        }
+        for f in other.failures {
+            if let Some(old) = self.failures.iter_mut().find(|o| o.property == f.property && o.fingerprint == f.fingerprint) {
+                if f.replay.len() < old.replay.len() {
+                    *old = f;
+                }
+            } else {
+                self.failures.push(f);
+            }
+        }
+        for (k, v) in other.extra {
+            self.extra.insert(k, v);
+        }
+    }
+
     pub fn begin_case(&mut self, name: &str) {
         self.case_name = name.to_string();
         self.case_start = self.ops.len();
